@@ -120,6 +120,19 @@ struct Harness {
     }
     return true;
   }
+  /// Same, for harnesses that partition work themselves (per-shard case numbers):
+  /// `own` says whether this process executes the case in a normal run.
+  bool take_if(bool own) {
+    ++idx;
+    if (capped) return false;
+    if (only >= 0) return idx == only;
+    if (!own) return false;
+    if ((evaluations & 0xff) == 0 && elapsed() > deadline_s) {
+      capped = true;
+      return false;
+    }
+    return true;
+  }
   void begin(const std::string &desc) {
     cur = desc;
     g_cur_idx = idx;
